@@ -18,7 +18,7 @@ META = dict(
     "caller's data are checked on the executed run",
     functions=["qucumber/nn_states/neural_state.py: NeuralStateBase.fit, _shuffle_data", "qucumber/utils/data.py: extract_refbasis_samples",
                "qucumber/nn_states/{positive,complex}_wavefunction.py, density_matrix.py: fit overrides"],
-    bounds=dict(quick="N in 1..5, pos_batch_size in {1,2,3,4,6} (N < batch, N = m*batch, N = m*batch + r), neg_batch_size defaulted / smaller / larger, with bases (complex, mixed) and without (positive), 2 epochs, data as tensor / ndarray / list",
+    bounds=dict(quick="N in 1..5, pos_batch_size in {1,2,3,4,6} (N < batch, N = m*batch, N = m*batch + r), neg_batch_size defaulted / smaller / larger, with bases (complex, mixed) and without (positive), 2 epochs, data as tensor / ndarray / list; a second fit of the same model with other data and the same bases object; real compute_batch_gradients for two configurations (chains per batch)",
                 thorough="N up to 7, 3 epochs"),
     outside=["N > 7", "uniformity of the shuffle (only that it is a permutation of the rows)", "the gradient computation itself (compute_batch_gradients is a recording stub)"],
     stubs=["torch.randperm -> symbolic permutation (z3 Ints, Distinct)", "torch.randint -> symbolic draws in range", "compute_batch_gradients -> recorder"],
